@@ -2650,7 +2650,7 @@ void QXmppJingleRtpFeedbackInterval::setValue(uint64_t value)
 /// \cond
 void QXmppJingleRtpFeedbackInterval::parse(const QDomElement &element)
 {
-    m_value = element.attribute(u"value"_s).toUInt();
+    m_value = element.attribute(u"value"_s).toULongLong();
 }
 
 void QXmppJingleRtpFeedbackInterval::toXml(QXmlStreamWriter *writer) const
